@@ -619,6 +619,9 @@ class RemoteWorker(Worker, metaclass=RemoteWorkerMeta):
                 self._ctrl_thread_loc.join()
         finally:
             self._cleanup()
+            if result is None:
+                # we got here with something which is not an Exception (KeyboardInterrupt, SystemExit...)
+                result = (False, sys.exc_info()[1])
             logger.debug('Sending result')
             send_msg(self._socket, result, 'data: result')
             send_msg(self._socket, self._user_state, 'data: user state')
